@@ -20,14 +20,16 @@ import Glom.Model.C02Heap
     * `WF F`             the extracted tables are well formed (facts obligation)
     * `record … = some o` the expression can be written: every operation used has
                           an overload on TType
-    * `Plain prim`       the second `arg_val` pass of `Call.glomit` over the already
-                          evaluated function and arguments does what passing
-                          list / tuple / dict arguments *by value* does, i.e. the
-                          target's data contains no glom spec objects.
-                          Forced by the proof; `c02_double_eval_counterexample` is the
-                          concrete input without it.  That the reference has to say
-                          "by value" at all is forced as well:
-                          `c02_call_by_value_counterexample`.
+    * `PlainCallee prim` the `arg_val` pass of `Call.glomit` over the already evaluated
+                          callee returns it, i.e. the callee is not a glom spec object
+                          stored in the target's data (a callable is a literal in
+                          argument mode).  Forced by the proof;
+                          `c02_callee_eval_counterexample` is the concrete input
+                          without it.  The ARGUMENTS of a call need no hypothesis:
+                          since /repo commit db9b8f7 they are evaluated exactly once
+                          and reach the callee as they are
+                          (`c02_call_by_reference`, `c02_args_evaluated_once`;
+                          `c02_second_pass_counterexample` keeps the old code shape).
 -/
 namespace Glom.Props.C02
 open Glom Glom.C02
@@ -50,18 +52,19 @@ theorem c02_no_dropped_op (d c : String) (h : charOf genFacts d = some c) :
 
 /-- **Replay.**  Evaluating the recorded object with `_t_eval` (flat tuple, index
     stepping by 2, branch table, `arg_val` on every argument inside the loop,
-    calls routed through `Call`) started in any state `s` yields exactly what
+    the recorded `(args, kwargs)` of a call handed unevaluated to `Call`, which
+    evaluates them once) started in any state `s` yields exactly what
     applying the chain of operations directly to the target object in state `s`
     yields — the same value *and the same state afterwards*; or the first failing
     operation, as PathAccessError(position) when the branch's `except` clause
     names its class and unchanged otherwise; or the failure of the first failing
     argument — again with the same state left behind. -/
 theorem c02_replay {V S : Type} (F : Facts) (hwf : WF F = true) (prim : Prim V S)
-    (hplain : Plain prim) (e : E V) (o : C02.Obj V)
+    (hcallee : PlainCallee prim) (e : E V) (o : C02.Obj V)
     (hrec : record F prim.none e = some o) (target : V) (s : S) :
     tEval F prim o target s = outS F (refEval prim e target s) := by
   unfold tEval refEval
-  rw [argVal_record F hwf prim hplain target e o hrec]
+  rw [argVal_record F hwf prim hcallee target e o hrec]
   simp only [outRun, outS]
   cases h : refArg prim target e s with
   | mk x s1 =>
@@ -70,9 +73,9 @@ theorem c02_replay {V S : Type} (F : Facts) (hwf : WF F = true) (prim : Prim V S
     | ok av => cases av <;> rfl
 
 /-- The executable instance the correspondence driver runs (values with object
-    identity in a heap, `Glom/Model/C02Heap.lean`) meets the hypothesis `Plain`:
-    its second `arg_val` pass *is* the by-value passing of the reference. -/
-theorem c02_driver_instance_plain : Plain hPrim := fun _ _ _ _ _ => rfl
+    identity in a heap, `Glom/Model/C02Heap.lean`) meets the hypothesis `PlainCallee`
+    (the harness never uses a stored glom spec object as callee). -/
+theorem c02_driver_instance_plain : PlainCallee hPrim := fun _ _ _ => rfl
 
 /-- **Which failures are PathAccessErrors.**  A failing attribute / item /
     arithmetic operation number `k` raising a documented class surfaces as
@@ -91,7 +94,7 @@ theorem c02_error_classes (F : Facts) (hwf : WF F = true) (k : Nat) (kind : Kind
     the target), leaving `s2`; then `d` is applied to `cur` with that value in
     state `s2`, as operation number `pre.length`. -/
 theorem c02_args_from_root {V S : Type} (F : Facts) (hwf : WF F = true) (prim : Prim V S)
-    (hplain : Plain prim) (pre inner : List (String × E V)) (d : String)
+    (hcallee : PlainCallee prim) (pre inner : List (String × E V)) (d : String)
     (hd : arglessDunders.contains d = false) (o : C02.Obj V)
     (hrec : record F prim.none (.texpr (pre ++ [(d, .texpr inner)])) = some o) (target : V)
     (s : S) :
@@ -109,7 +112,7 @@ theorem c02_args_from_root {V S : Type} (F : Facts) (hwf : WF F = true) (prim : 
              | none => (.error .unsupported, s2)
              | some (.ok v, s3) => (.ok v, s3)
              | some (.error e, s3) => (.error (.opFail pre.length kind e), s3)) := by
-  rw [c02_replay F hwf prim hplain _ o hrec target s]
+  rw [c02_replay F hwf prim hcallee _ o hrec target s]
   congr 1
   simp only [refEval_texpr, List.map_append, List.map_cons, List.map_nil, foldSteps_append]
   cases h1 : foldSteps prim (pre.map (refStep prim target)) 0 s target with
@@ -142,11 +145,11 @@ theorem c02_args_from_root {V S : Type} (F : Facts) (hwf : WF F = true) (prim : 
     function of the state left and a value; the driver's is "the tree the value
     denotes in the heap"). -/
 theorem c02_model_checks {V S W : Type} [BEq W] [ReflBEq W] (view : View V S W) (F : Facts)
-    (hwf : WF F = true) (prim : Prim V S) (hplain : Plain prim) (e : E V) (o : C02.Obj V)
+    (hwf : WF F = true) (prim : Prim V S) (hcallee : PlainCallee prim) (e : E V) (o : C02.Obj V)
     (hrec : record F prim.none e = some o) (target : V) (s : S)
     (hsup : (refEval prim e target s).1 ≠ .error .unsupported) :
     checkC02 view prim e target s (observeS F view target (tEval F prim o target s)) = true := by
-  rw [c02_replay F hwf prim hplain e o hrec target s]
+  rw [c02_replay F hwf prim hcallee e o hrec target s]
   unfold checkC02 observeS
   generalize refEval prim e target s = rs at hsup ⊢
   obtain ⟨r, s1⟩ := rs
@@ -184,15 +187,15 @@ open Glom Glom.C02 Glom.Props.C02
 
 /-! ### non-vacuity: concrete inputs meet every hypothesis; counter-examples without them -/
 
-/-- toy values: numbers; a glom `T` object stored as *data* inside the target;
-    a stack object (its content is the state), its bound method `pop`, and a
-    by-value copy of it -/
+/-- toy values: numbers; a glom `T` object stored as *data* inside the target (it is
+    also the one callable: the identity function of one argument); a stack object (its
+    content is the state) and its bound method `pop` -/
 inductive TV where
   | n (k : Int)
   | tobj
   | stack
   | popm
-  | snap
+  | idf
   deriving DecidableEq, Repr
 
 instance : ReflBEq TV := ⟨by intro a; cases a <;> simp [BEq.beq]⟩
@@ -200,11 +203,10 @@ instance : ReflBEq TV := ⟨by intro a; cases a <;> simp [BEq.beq]⟩
 /-- toy primitives on the state `List Int` (the content of the object `stack`):
     `stack.pop` is the bound method `popm`, calling it removes and returns the
     last element; `stack[0]` is the last element *now*; `cur[1]`, `cur[2]` are
-    the object `tobj`; every other callable is the identity function of one
-    argument; `//` and `+` on numbers; `-x`.
-    `reval` is the second `arg_val` pass of `Call.glomit`, `pass` is how the
-    reference semantics passes arguments. -/
-def toyPrim (reval : TV → TV → TV) (pass : TV → TV) : Prim TV (List Int) :=
+    the object `tobj`; calling `tobj` or the identity function `idf` with one argument
+    returns that argument; nothing else is callable; `//` and `+` on numbers; `-x`.
+    `reval` is the `arg_val` pass of `Call.glomit` over the callee. -/
+def toyPrim (reval : TV → TV → TV) : Prim TV (List Int) :=
   { none := .n 0
     getattr := fun s cur _ => match cur with
       | .stack => (.ok .popm, s)
@@ -219,7 +221,8 @@ def toyPrim (reval : TV → TV → TV) (pass : TV → TV) : Prim TV (List Int) :
       | .popm, [] => (match s.getLast? with
         | some x => (.ok (.n x), s.dropLast)
         | none => (.error ⟨"IndexError"⟩, s))
-      | _, [a] => (.ok a, s)
+      | .tobj, [a] => (.ok a, s)
+      | .idf, [a] => (.ok a, s)
       | _, _ => (.error ⟨"TypeError"⟩, s)
     bin := fun b s x y => match b, x, y with
       | .floordiv, .n a, .n c =>
@@ -233,24 +236,14 @@ def toyPrim (reval : TV → TV → TV) (pass : TV → TV) : Prim TV (List Int) :
     mkTuple := fun s _ => (.n 0, s)
     hashKey := fun s _ => (.ok (), s)
     mkDict := fun s _ => (.ok (.n 0), s)
-    passCall := fun s f args kwargs =>
-      ((pass f, args.map pass, kwargs.map (fun p => (p.1, pass p.2))), s)
-    revalCall := fun s t f args kwargs =>
-      ((reval t f, args.map (reval t), kwargs.map (fun p => (p.1, reval t p.2))), s) }
+    revalFunc := fun s t f => (reval t f, s) }
 
-/-- plain data: the second `arg_val` pass returns its argument -/
+/-- plain data: `arg_val` returns an evaluated callee as it is -/
 def plain : TV → TV → TV := fun _ v => v
-/-- data containing `T` objects: the second pass evaluates them against the target -/
+/-- data containing `T` objects: `arg_val` evaluates them against the target -/
 def leaky : TV → TV → TV := fun t v => match v with | .tobj => t | v => v
-/-- the second pass rebuilds containers: the stack object becomes a copy -/
-def copying : TV → TV → TV := fun _ v => match v with | .stack => .snap | v => v
-def byValue : TV → TV := copying (.n 0)
 
-example : Plain (toyPrim plain id) := by
-  intro s t f args kwargs
-  simp [toyPrim, show plain t = id from rfl]
-
-example : Plain (toyPrim copying byValue) := fun _ _ _ _ _ => rfl
+theorem plain_ok : PlainCallee (toyPrim plain) := fun _ _ _ => rfl
 
 /-- `(T // 2) + (-T)` -/
 def exE : E TV :=
@@ -259,29 +252,25 @@ def exE : E TV :=
 def exO : C02.Obj TV :=
   .tt [.root "T", .opc "#", .lit (.n 2), .opc "+", .tt [.root "T", .opc "_", .lit (.n 0)]]
 
-theorem plain_ok : Plain (toyPrim plain id) := by
-  intro s t f args kwargs
-  simp [toyPrim, show plain t = id from rfl]
-
-theorem ex_record : record genFacts (toyPrim plain id).none exE = some exO := by
+theorem ex_record : record genFacts (toyPrim plain).none exE = some exO := by
   simp [exE, exO, toyPrim, record_texpr, recStep, charOf, genFacts, Generated.tRecorded,
     arglessDunders, allSome, flatOfCells, record]
 
 /-- applied directly to 7: `7 // 2 + -7 = -4` (the nested `-T` sees the target 7, not 3) -/
-theorem ex_ref : refEval (toyPrim plain id) exE (.n 7) [] = (.ok (.n (-4)), []) := by
+theorem ex_ref : refEval (toyPrim plain) exE (.n 7) [] = (.ok (.n (-4)), []) := by
   simp [exE, refEval_texpr, refStep, arglessDunders, meaning, meaningTable, foldSteps, pyApply,
     toyPrim, refArg]
 
-example : (refEval (toyPrim plain id) exE (.n 7) []).1 ≠ .error .unsupported := by
+example : (refEval (toyPrim plain) exE (.n 7) []).1 ≠ .error .unsupported := by
   rw [ex_ref]; simp
 
 /-- hence, by `c02_replay`, so does the model on the recorded object -/
-example : tEval genFacts (toyPrim plain id) exO (.n 7) [] = (.ok (.n (-4)), []) := by
-  rw [c02_replay genFacts c02_facts_wf (toyPrim plain id) plain_ok exE exO ex_record, ex_ref]
+example : tEval genFacts (toyPrim plain) exO (.n 7) [] = (.ok (.n (-4)), []) := by
+  rw [c02_replay genFacts c02_facts_wf (toyPrim plain) plain_ok exE exO ex_record, ex_ref]
   rfl
 
 /-- a failing operation: `(T // 0)` is operation 0 raising ZeroDivisionError -/
-example : refEval (toyPrim plain id) (.texpr [("__floordiv__", .lit (.n 0))]) (.n 7) []
+example : refEval (toyPrim plain) (.texpr [("__floordiv__", .lit (.n 0))]) (.n 7) []
     = (.error (.opFail 0 (.bin .floordiv) ⟨"ZeroDivisionError"⟩), []) := by
   simp [refEval_texpr, refStep, arglessDunders, meaning, meaningTable, foldSteps, pyApply,
     toyPrim, refArg]
@@ -304,7 +293,7 @@ def popO : C02.Obj TV := .tt (.root "T" :: flatOfCells popCells)
 def applyAll {V S} (F : Facts) (prim : Prim V S) (target : V) :
     List String → List (AV V) → Nat → S → V → Except Err V × S
   | c :: cs, av :: avs, k, s, cur =>
-    match applyBranch F prim target k c s cur av with
+    match stepOp F prim target k c s cur (fun s' => (.ok av, s')) with
     | (.ok v, s1) => applyAll F prim target cs avs (k + 1) s1 v
     | (.error e, s1) => (.error e, s1)
   | _, _, _, s, cur => (.ok cur, s)
@@ -321,15 +310,30 @@ def tEvalHoisted {V S} (F : Facts) (prim : Prim V S) (cells : List (String × C0
 def droppedFacts : Facts :=
   { genFacts with dispatch := genFacts.dispatch.filter (fun en => en.1 != "#") }
 
-/-! #### without `Plain`: `T[1](T[2])` on a target whose items are `T` objects -/
+/-! #### `T[1](T[2])` on a target whose items are `T` objects (`tobj`, also the identity
+    function): a stored `T` object as argument, and as callee -/
 
 def dblE : E TV :=
   .texpr [("__getitem__", .lit (.n 1)),
           ("__call__", .cargs [.texpr [("__getitem__", .lit (.n 2))]] [])]
 
 def dblO : C02.Obj TV :=
-  .tt [.root "T", .opc "[", .lit (.n 1), .opc "(",
-       .cargs [.tt [.root "T", .opc "[", .lit (.n 2)]] []]
+  .tt (.root "T" :: flatOfCells [("[", .lit (.n 1)),
+    ("(", .cargs [.tt (.root "T" :: flatOfCells [("[", .lit (.n 2))])] [])])
+
+/-- the code shape before /repo commit db9b8f7: the arguments of a call were evaluated
+    by the loop, then the evaluated callee and every evaluated argument went through
+    `arg_val` a second time (`reval`) inside `Call.glomit` -/
+def callTwice {V S} (prim : Prim V S) (reval : V → V → V) (target : V) (s : S) (cur : V)
+    (ev : Run S Err (AV V)) : Except Err V × S :=
+  match ev s with
+  | (.error e, s1) => (.error e, s1)
+  | (.ok (.call args kwargs), s1) =>
+    (liftExc (prim.call s1 (reval target cur) (args.map (reval target))
+      (kwargs.map (fun p => (p.1, reval target p.2)))).1,
+     (prim.call s1 (reval target cur) (args.map (reval target))
+      (kwargs.map (fun p => (p.1, reval target p.2)))).2)
+  | (.ok (.val _), s1) => (.error .unsupported, s1)
 
 /-! #### the identity function called with the target: `T[1](T)` on the stack object -/
 
@@ -337,6 +341,16 @@ def idE : E TV := .texpr [("__getitem__", .lit (.n 1)), ("__call__", .cargs [.te
 
 def idO : C02.Obj TV :=
   .tt (.root "T" :: flatOfCells [("[", .lit (.n 1)), ("(", .cargs [.tt [.root "T"]] [])])
+
+theorem dbl_record (reval : TV → TV → TV) :
+    record genFacts (toyPrim reval).none dblE = some dblO := by
+  simp [dblE, dblO, toyPrim, record_texpr, recStep, charOf, genFacts, Generated.tRecorded,
+    arglessDunders, allSome, flatOfCells, record]
+
+theorem dbl_ref (reval : TV → TV → TV) :
+    refEval (toyPrim reval) dblE (.n 7) [] = (.ok .tobj, []) := by
+  simp [dblE, refEval_texpr, refStep, arglessDunders, meaning, meaningTable, foldSteps, pyApply,
+    toyPrim, refArg, refVals, refValRun, refVal1, seqRun]
 
 end Glom.C02.Examples
 
@@ -350,22 +364,22 @@ open Glom Glom.C02 Glom.C02.Examples
     C02-s2) reads `T[0]` before the pop: 60.  Real glom:
     `glom({'l': [10, 20, 30]}, T['l'].pop() + T['l'][-1]) == 50`. -/
 theorem c02_hoisted_args_counterexample :
-    record genFacts (toyPrim plain id).none popE = some popO ∧
-    refEval (toyPrim plain id) popE .stack [10, 20, 30] = (.ok (.n 50), [10, 20]) ∧
-    tEval genFacts (toyPrim plain id) popO .stack [10, 20, 30] = (.ok (.n 50), [10, 20]) ∧
-    tEvalHoisted genFacts (toyPrim plain id) popCells .stack [10, 20, 30]
+    record genFacts (toyPrim plain).none popE = some popO ∧
+    refEval (toyPrim plain) popE .stack [10, 20, 30] = (.ok (.n 50), [10, 20]) ∧
+    tEval genFacts (toyPrim plain) popO .stack [10, 20, 30] = (.ok (.n 50), [10, 20]) ∧
+    tEvalHoisted genFacts (toyPrim plain) popCells .stack [10, 20, 30]
       = (.ok (.n 60), [10, 20]) := by
-  have hrec : record genFacts (toyPrim plain id).none popE = some popO := by
+  have hrec : record genFacts (toyPrim plain).none popE = some popO := by
     simp [popE, popO, popCells, toyPrim, record_texpr, recStep, charOf, genFacts,
       Generated.tRecorded, arglessDunders, allSome, flatOfCells, record]
-  have href : refEval (toyPrim plain id) popE .stack [10, 20, 30] = (.ok (.n 50), [10, 20]) := by
+  have href : refEval (toyPrim plain) popE .stack [10, 20, 30] = (.ok (.n 50), [10, 20]) := by
     simp [popE, refEval_texpr, refStep, arglessDunders, meaning, meaningTable, foldSteps, pyApply,
       toyPrim, refArg, refVals, seqRun]
   refine ⟨hrec, href, ?_, ?_⟩
-  · rw [c02_replay genFacts c02_facts_wf (toyPrim plain id) plain_ok popE popO hrec, href]
+  · rw [c02_replay genFacts c02_facts_wf (toyPrim plain) plain_ok popE popO hrec, href]
     rfl
   · simp only [tEvalHoisted, popCells, List.map, seqRun, argVal_tt_T]
-    simp [argVal_lit, argVal_cargs, seqRun, stepsEval, valsOf, applyAll,
+    simp [argVal_lit, argVal_cargs, seqRun, stepsEval, valsOf, applyAll, stepOp, callChar,
       applyBranch, dispatchOf, genFacts, Generated.tDispatch, Kind.ofString, kindNames, guarded,
       guardE, toyPrim, plain]
 
@@ -374,11 +388,11 @@ theorem c02_hoisted_args_counterexample :
     `_t_eval` returns the target 7 unchanged (no error), the chain applied directly gives 3. -/
 theorem c02_wf_counterexample :
     WF droppedFacts = false ∧
-    record droppedFacts (toyPrim plain id).none (.texpr [("__floordiv__", .lit (.n 2))])
+    record droppedFacts (toyPrim plain).none (.texpr [("__floordiv__", .lit (.n 2))])
       = some (.tt [.root "T", .opc "#", .lit (.n 2)]) ∧
-    tEval droppedFacts (toyPrim plain id) (.tt [.root "T", .opc "#", .lit (.n 2)]) (.n 7) []
+    tEval droppedFacts (toyPrim plain) (.tt [.root "T", .opc "#", .lit (.n 2)]) (.n 7) []
       = (.ok (.n 7), []) ∧
-    refEval (toyPrim plain id) (.texpr [("__floordiv__", .lit (.n 2))]) (.n 7) []
+    refEval (toyPrim plain) (.texpr [("__floordiv__", .lit (.n 2))]) (.n 7) []
       = (.ok (.n 3), []) := by
   refine ⟨by decide, ?_, ?_, ?_⟩
   · simp [toyPrim, record_texpr, recStep, charOf, droppedFacts, genFacts, Generated.tRecorded,
@@ -386,60 +400,69 @@ theorem c02_wf_counterexample :
   · have h : (C02.Obj.tt [.root "T", .opc "#", .lit (TV.n 2)]) =
         .tt (.root "T" :: flatOfCells [("#", .lit (.n 2))]) := by simp [flatOfCells]
     rw [h]
-    simp [tEval, argVal_tt_T, stepsEval, argVal_lit, applyBranch, dispatchOf, droppedFacts, genFacts,
-      Generated.tDispatch]
+    simp [tEval, argVal_tt_T, stepsEval, argVal_lit, stepOp, callChar, applyBranch, dispatchOf,
+      droppedFacts, genFacts, Generated.tDispatch]
   · simp [refEval_texpr, refStep, arglessDunders, meaning, meaningTable, foldSteps, pyApply,
       toyPrim, refArg]
 
-/-- Applying the chain directly gives `target[1](target[2])`, the stored object;
-    `_t_eval` gives the *target*: `Call.glomit` evaluated the stored `T` object a
-    second time.  Real glom: `glom({'f': ident, 'a': T['b'], 'b': 5}, T['f'](T['a'])) == 5`
-    whereas `target['f'](target['a'])` is the object `T['b']`.  (Reading: the
-    property is about targets made of plain data; recorded in the harness' ASSUMPTIONS.) -/
-theorem c02_double_eval_counterexample :
-    record genFacts (toyPrim leaky id).none dblE = some dblO ∧
-    refEval (toyPrim leaky id) dblE (.n 7) [] = (.ok .tobj, []) ∧
-    tEval genFacts (toyPrim leaky id) dblO (.n 7) [] = (.ok (.n 7), []) := by
-  refine ⟨?_, ?_, ?_⟩
-  · simp [dblE, dblO, toyPrim, record_texpr, recStep, charOf, genFacts, Generated.tRecorded,
-      arglessDunders, allSome, flatOfCells, record]
-  · simp [dblE, refEval_texpr, refStep, arglessDunders, meaning, meaningTable, foldSteps, pyApply,
-      toyPrim, refArg, refVals, refValRun, refVal1, seqRun]
-  · have h : dblO = .tt (.root "T" :: flatOfCells [("[", .lit (.n 1)),
-        ("(", .cargs [.tt (.root "T" :: flatOfCells [("[", .lit (.n 2))])] [])]) := by
-      simp [dblO, flatOfCells]
-    rw [h]
-    simp [tEval, argVal_tt_T, stepsEval, argVal_lit, argVal_cargs, valsOf, valOfRun, valOfRes, asVal,
-      seqRun, applyBranch, dispatchOf, genFacts, Generated.tDispatch, Kind.ofString, kindNames,
-      guarded, guardE, toyPrim, leaky]
+/-- **The arguments of a recorded call are evaluated exactly once.**  `T[1](T[2])`
+    on a target whose item 2 is a `T` object: the callee (the identity function)
+    receives — and returns — the stored object itself, as `target[1](target[2])`
+    does.  Real glom (since /repo commit db9b8f7):
+    `glom({'f': ident, 'a': T['b'], 'b': 5}, T['f'](T['a']))` is the object `T['b']`. -/
+theorem c02_args_evaluated_once :
+    record genFacts (toyPrim plain).none dblE = some dblO ∧
+    refEval (toyPrim plain) dblE (.n 7) [] = (.ok .tobj, []) ∧
+    tEval genFacts (toyPrim plain) dblO (.n 7) [] = (.ok .tobj, []) := by
+  refine ⟨dbl_record plain, dbl_ref plain, ?_⟩
+  rw [c02_replay genFacts c02_facts_wf (toyPrim plain) plain_ok dblE dblO (dbl_record plain),
+    dbl_ref plain]
+  rfl
 
-/-- **Call arguments are passed by value.**  With a reference semantics that hands
-    the very argument objects to the callee (`pass = id`), the identity function
-    called with the target returns the target object itself; `_t_eval` returns a
-    *copy* (`Call.glomit` runs `arg_val` over the evaluated arguments, which
-    rebuilds every list / tuple / dict).  Real glom:
-    `t = {'f': ident, 'l': [1]}`; `glom(t, T['f'](T['l'])) is t['l']` is False, and
-    `glom(t, T['f'](T['l']).append(2))` leaves `t['l'] == [1]`, whereas
-    `t['f'](t['l']).append(2)` makes it `[1, 2]`.  So "exactly the recorded
-    operations on the target" holds only with calls read as by-value for the
-    three builtin container types — which is what `passCall` says. -/
-theorem c02_call_by_value_counterexample :
-    record genFacts (toyPrim copying id).none idE = some idO ∧
-    refEval (toyPrim copying id) idE .stack [1] = (.ok .stack, [1]) ∧
-    tEval genFacts (toyPrim copying id) idO .stack [1] = (.ok .snap, [1]) ∧
-    refEval (toyPrim copying byValue) idE .stack [1] = (.ok .snap, [1]) := by
-  refine ⟨?_, ?_, ?_, ?_⟩
-  · simp [idE, idO, toyPrim, record_texpr, recStep, charOf, genFacts, Generated.tRecorded,
+/-- The code shape before commit db9b8f7 (`callTwice`: the loop evaluates the
+    arguments, `Call.glomit` passes callee and arguments through `arg_val` again) does
+    NOT replay a call of the identity function with a stored `T` object as argument:
+    the second pass evaluates the stored object, the function receives the *target* 7.  (Then real glom gave
+    `glom({'f': ident, 'a': T['b'], 'b': 5}, T['f'](T['a'])) == 5`, and a list
+    argument reached the callee as a rebuilt copy.) -/
+theorem c02_second_pass_counterexample :
+    callTwice (toyPrim plain) leaky (.n 7) [] .idf (fun s => (.ok (.call [.tobj] []), s))
+      = (.ok (.n 7), []) ∧
+    pyApply (toyPrim plain) .call [] .idf (.call [.tobj] []) = some (.ok .tobj, []) := by
+  constructor <;> simp [callTwice, pyApply, toyPrim, leaky, liftExc]
+
+/-- Without `PlainCallee` the conclusion of `c02_replay` fails: when the CALLEE
+    itself is a `T` object stored in the target, `Call.glomit`'s `r(self.func)`
+    evaluates it (here to the target 7, which is not callable), whereas the chain
+    applied directly calls the stored object.  (Reading: targets are plain data as
+    far as callees are concerned; recorded in the harness' ASSUMPTIONS.) -/
+theorem c02_callee_eval_counterexample :
+    record genFacts (toyPrim leaky).none dblE = some dblO ∧
+    refEval (toyPrim leaky) dblE (.n 7) [] = (.ok .tobj, []) ∧
+    tEval genFacts (toyPrim leaky) dblO (.n 7) [] = (.error (.raised ⟨"TypeError"⟩), []) := by
+  refine ⟨dbl_record leaky, dbl_ref leaky, ?_⟩
+  simp only [dblO]
+  simp [tEval, argVal_tt_T, stepsEval, argVal_lit, argVal_cargs, valsOf, valOfRun, valOfRes, asVal,
+    seqRun, stepOp, callChar, applyBranch, dispatchOf, genFacts, Generated.tDispatch,
+    Kind.ofString, kindNames, guarded, guardE, toyPrim, leaky, caughtBy]
+
+/-- **Call arguments are passed by reference.**  The identity function called with
+    the target returns the target object itself — in the model of `_t_eval` as in
+    the chain applied directly.  Real glom (since commit db9b8f7):
+    `t = {'f': ident, 'l': [1]}`; `glom(t, T['f'](T['l'])) is t['l']`, and
+    `glom(t, T['f'](T['l']).append(2))` makes `t['l'] == [1, 2]`. -/
+theorem c02_call_by_reference :
+    record genFacts (toyPrim plain).none idE = some idO ∧
+    refEval (toyPrim plain) idE .stack [1] = (.ok .stack, [1]) ∧
+    tEval genFacts (toyPrim plain) idO .stack [1] = (.ok .stack, [1]) := by
+  have hrec : record genFacts (toyPrim plain).none idE = some idO := by
+    simp [idE, idO, toyPrim, record_texpr, recStep, charOf, genFacts, Generated.tRecorded,
       arglessDunders, allSome, flatOfCells, record]
-  · simp [idE, refEval_texpr, refStep, arglessDunders, meaning, meaningTable, foldSteps, pyApply,
+  have href : refEval (toyPrim plain) idE .stack [1] = (.ok .stack, [1]) := by
+    simp [idE, refEval_texpr, refStep, arglessDunders, meaning, meaningTable, foldSteps, pyApply,
       toyPrim, refArg, refVals, refValRun, refVal1, seqRun]
-  · have h : (C02.Obj.tt [.root "T"] : C02.Obj TV) = .tt (.root "T" :: flatOfCells []) := by
-      simp [flatOfCells]
-    simp only [idO, h]
-    simp [tEval, argVal_tt_T, stepsEval, argVal_lit, argVal_cargs, valsOf, valOfRun, valOfRes, asVal,
-      seqRun, applyBranch, dispatchOf, genFacts, Generated.tDispatch, Kind.ofString, kindNames,
-      guarded, guardE, toyPrim, copying]
-  · simp [idE, refEval_texpr, refStep, arglessDunders, meaning, meaningTable, foldSteps, pyApply,
-      toyPrim, refArg, refVals, refValRun, refVal1, seqRun, byValue, copying]
+  refine ⟨hrec, href, ?_⟩
+  rw [c02_replay genFacts c02_facts_wf (toyPrim plain) plain_ok idE idO hrec, href]
+  rfl
 
 end Glom.Props.C02
